@@ -291,7 +291,7 @@ def execute(sc, mutant=None):
                 def user():
                     for c in range(sc.get('connects', 1)):
                         ses.open(c + 1)
-                        for _ in range(60):
+                        for _ in range(3000):
                             if ses.connected_evt.wait(0.35):
                                 break
                             ses.dev.flush_held()          # a delayed reply finally arrives
@@ -308,7 +308,7 @@ def execute(sc, mutant=None):
                             ses.cf.close_link()
                             vtime.sleep(0.05)
                 u = s.spawn(user, 'user')
-                why = s.run(until=lambda: u.finished, horizon=400.0)
+                why = s.run(until=lambda: u.finished, horizon=3000.0)
                 ses.finalize()
                 rep = s.report()
                 dead = [t for t in rep if t['status'] == 'dead']
@@ -995,6 +995,13 @@ def main(tier, seed, replay=None):
             out.violation(signature(t, clause, at, wit), clause, {'event_index': at, 'witness': wit}, rp)
         return out.finish()
 
+    import time as _time
+    timing = out.extra.setdefault('timing_s', {})
+    _t = [_time.time()]
+
+    def lap(name):
+        timing[name] = round(_time.time() - _t[0], 1)
+        _t[0] = _time.time()
     # 1. design spec: exhaustive; every bug configuration must be refuted (vacuity guard)
     cfgs = ['MC_TocFetch_quick.cfg', 'MC_TocFetch_boundary_quick.cfg'] if quick else \
            ['MC_TocFetch_thorough.cfg', 'MC_TocFetch_boundary.cfg']
@@ -1005,6 +1012,7 @@ def main(tier, seed, replay=None):
         rb = tlc.expect_violation('MC_TocFetch.tla', 'MC_TocFetch_bug_%s.cfg' % bug, timeout=900)
         out.sensitivity['spec:' + bug] = 'refuted (%s) after %d states' % (rb.violated, rb.distinct)
 
+    lap('1_design_spec_tlc')
     # 2. spec -> code: a transition tour of the complete state graph (every order of replies,
     #    duplicates and timeouts the fault budget allows) + random simulation of larger tables
     gcfg = 'MC_TocFetch_quick.cfg' if quick else 'MC_TocFetch_thorough.cfg'
@@ -1021,7 +1029,9 @@ def main(tier, seed, replay=None):
     rs, behs = tlc.simulate('MC_TocFetch.tla', 'SIM_TocFetch.cfg', num=nsim, depth=50, seed=seed % 100000, timeout=1800)
     out.add_tlc('SIM_TocFetch.cfg (-simulate num=%d)' % nsim, rs)
     jobs += [j for j in (behaviour_job(b) for b in behs) if j]
+    lap('2a_graph_tour_simulate')
     rres = run_replays(jobs)
+    lap('2b_replay_real_code')
     rtraces = [r[0] for r in rres]
     steps = sum(r[1] for r in rres)
     matched = sum(r[2] for r in rres)
@@ -1038,11 +1048,14 @@ def main(tier, seed, replay=None):
         raise common.MachineryError('%d replayed behaviours did not reach connected (first: %s)' %
                                     (len(unconn), str(jobs[unconn[0]]['cfg'])[:200]))
 
+    lap('2c_judge_replays')
     # 3. code -> spec: enumerated and seeded-random scenarios, judged by the monitor
     fam_scs = scenarios(tier, rng)
     scs = [x[1] for x in fam_scs]
     traces = run_scenarios(scs)
+    lap('3a_run_scenarios')
     bad, drift, unconn = judge(out, traces, 'real code')
+    lap('3b_judge_scenarios')
     fams = {}
     for (f, _sc) in fam_scs:
         fams[f] = fams.get(f, 0) + 1
@@ -1093,6 +1106,7 @@ def main(tier, seed, replay=None):
             len(mbad), len(mt), ','.join(clauses) or '-', len(mun))
         if not mbad:
             raise common.MachineryError('monitor did not reject in-memory mutant %s' % name)
+    lap('4a_mutants')
     # binding self-tests on a recorded trace: a corrupted observation and a dropped protocol event
     src = next(t for t in traces if any(e['e'] == 'connected' and e['param'] for e in t['ev'])
                and sum(1 for e in t['ev'] if e['e'] == 'rx') >= 3)
@@ -1115,4 +1129,5 @@ def main(tier, seed, replay=None):
         out.sensitivity['binding:' + name] = ('rejected by %s' % want) if ok else 'ACCEPTED'
         if not ok:
             raise common.MachineryError('trace spec accepted corrupted trace %s' % name)
+    lap('4b_binding_tests')
     return out.finish()
